@@ -41,15 +41,20 @@ def _flat_inputs(ctx, model):
                 out[name] = model.eval(spec[1], model_completion=True).as_long()
             elif kind in ("bytes", "stream"):
                 n = model.eval(spec[2], model_completion=True).as_long()
-                n = max(0, min(n, 4096))
+                start = 0
+                if kind == "stream":
+                    # contracts speak about positions relative to the entry position: replay on
+                    # the window that starts there (keeps the replay file small)
+                    start = max(0, model.eval(spec[3], model_completion=True).as_long())
+                n = max(start, min(n, start + 4096))
                 bs = []
-                for i in range(n):
+                for i in range(start, n):
                     b = model.eval(z3.Select(spec[1], i), model_completion=True)
                     b = b.as_long() if z3.is_int_value(b) else 0
                     bs.append(b % 256)
                 out[name] = {"hex": bytes(bs).hex()}
                 if kind == "stream":
-                    out[name]["pos"] = model.eval(spec[3], model_completion=True).as_long()
+                    out[name]["pos"] = 0
             elif kind == "list":
                 n = model.eval(spec[2], model_completion=True).as_long()
                 n = max(0, min(n, 256))
